@@ -63,9 +63,41 @@ fn exact_match_family(r: &mut Rng) -> Vec<String> {
     }
     v
 }
+/// Plain rules of VERY different lengths under one option set in one bucket (token-less patterns, or
+/// patterns sharing their only token), unanchored or right-anchored: after fusion the patterns are
+/// tried one after the other against one URL, which may be shorter than some of them.  The test URLs
+/// are short: host + one of the SHORT patterns.
+fn length_family(r: &mut Rng) -> Vec<String> {
+    let o = r.pick(&["", "$script", "$image,third-party"]);
+    let right = r.chance(1, 2);
+    let tail = if right { "|" } else { "" };
+    let mut v = vec![];
+    let n = r.range(3, 7);
+    for i in 0..n {
+        let pat = if right {
+            // only token: the extension
+            let ext = "gif";
+            match i % 3 { 0 => format!("/{}.{}", r.pick(&["p", "q", "x"]), ext), 1 => format!("/{}/{}.{}", r.pick(&["1", "2"]), r.pick(&["x", "y"]), ext), _ => format!("/{}/{}/{}-{}.{}", r.pick(&["a", "b"]), "static-assets-and-more", "tracking-pixel-image-file", i, ext) }
+        } else {
+            // one token ("adv") in every pattern, so that all of them share a bucket; the long ones are
+            // padded with separator characters only
+            // no index token at all (the only word runs to the unanchored end), so that all of them share
+            // the fallback bucket: three-letter words and words of 45-60 letters
+            match i % 3 {
+                0 | 1 => format!("/{}", r.pick(&["adv", "ads", "pix", "trk", "bnr"])),
+                _ => format!("/{}", (0..r.range(45, 60)).map(|_| (b'a' + r.below(26) as u8) as char).collect::<String>()),
+            }
+        };
+        v.push(format!("{}{}{}", pat, tail, o));
+    }
+    v
+}
 fn fusable(r: &mut Rng) -> Vec<String> {
     if r.chance(1, 25) {
         return big_group(r);
+    }
+    if r.chance(1, 10) {
+        return length_family(r);
     }
     if r.chance(1, 12) {
         return exact_match_family(r);
